@@ -691,7 +691,8 @@ def gen_o_fixed(rng, n):
                           else ["rot", "lox", "lox", "par", "refl", "refl", "half_turn", "id"])
         # both projective representatives +-M of the isometry, negative parameters of the standard_* constructors
         yield {"dim": dim, "kind": kind, "g": G.float_iso(rng, dim).tolist(), "a": rng.uniform(0.3, 2.8) * rng.choice([-1, 1]),
-               "t": rng.uniform(0.3, 3.0) * rng.choice([-1, 1]), "col": rng.random() < 0.3,
+               # G12: now and then a long translation (multiplier up to e^12)
+               "t": (rng.uniform(3.0, 12.0) if rng.random() < 0.15 else rng.uniform(0.3, 3.0)) * rng.choice([-1, 1]), "col": rng.random() < 0.3,
                "sign": rng.choice([1, 1, -1]), "neg_param": rng.random() < 0.3}
 
 
